@@ -161,9 +161,9 @@ PROPS = {
     "C18": {
         "lean": ["C18"],
         "required": ["C18.c18_host_network_unchanged", "C18.c18_ignored_unchanged", "C18.c18_no_match_unchanged", "C18.c18_conflict_denied",
-                     "C18.c18_complete_spec", "C18.c18_vsw_sg_present_partial", "C18.c18_non_eth0_unfilled_witness", "C18.c18_device_request",
+                     "C18.c18_complete_spec", "C18.c18_vsw_sg_present_partial", "C18.c18_non_eth0_unfilled_witness", "C18.c18_device_request", "C18.c18_device_request_overrides_declared",
                      "C18.c18_zone_subset", "C18.c18_match_sound", "C18.c18_fixed_needs_stable_name", "C18.c18_daemonset_no_affinity"],
-        "rule": "pods from the product of host-network / ignore label / container count / owner kind (StatefulSet, ReplicaSet, DaemonSet) / pod-eni flag, with one of: a user pod-networks annotation (1-3 entries, names incl. empty, too long and duplicate, "
+        "rule": "pods from the product of host-network / ignore label / container count (a fifth of them with a first container that already declares both device resources, quantity 1-4) / owner kind (StatefulSet, ReplicaSet, DaemonSet) / pod-eni flag, with one of: a user pod-networks annotation (1-3 entries, names incl. empty, too long and duplicate, "
                 "0/1/2/11 security groups, missing vSwitches, Fixed/Elastic/unset), a pod-networks-request (1-3 references incl. unknown networks), none, malformed JSON, or conflicting annotations; 0-3 PodNetworking objects (ready or not, Fixed or not, "
                 "pod/namespace selectors that match / do not match / are absent, zone sets); namespace present or not; previous PodENI zone; IPAM type; resource injection; trunk; cluster configuration with/without vSwitches or absent. "
                 "The real podWebhook runs against controller-runtime's fake client, its JSON patch is applied and decoded. non-trivial = patched response; distinct = distinct op line.",
